@@ -10,6 +10,7 @@ mod pure;
 mod ack;
 mod conc;
 mod locks;
+mod stress;
 
 use std::io::Write;
 use std::sync::Mutex;
@@ -166,6 +167,7 @@ fn main() {
         "pure" => { pure::run(seed, &out, args.iter().any(|a| a == "--thorough")); true }
         "ack" => { ack::run(&out, arg(&args, "--polls").and_then(|s| s.parse().ok()).unwrap_or(2), arg(&args, "--schedule")); true }
         "conc" => conc::run(seed, &out, &args),
+        "stress" => { stress::run(seed, &out, arg(&args, "--millis").and_then(|s| s.parse().ok()).unwrap_or(700)); true }
         "locks" => locks::run(seed, &out, arg(&args, "--millis").and_then(|s| s.parse().ok()).unwrap_or(1500)),
         _ => { eprintln!("unknown mode"); false }
     };
